@@ -1007,7 +1007,7 @@ func main() {
 		if obs.caller != nil {
 			in := rs.obs()
 			w.Count("stream:" + stream + "-caller")
-			w.Add(emit.App("CCaller", in.coq(), obs.caller.coq()),
+			w.Add(emit.App("CCaller", emit.Nat(n), in.coq(), obs.caller.coq()),
 				map[string]interface{}{"stream": stream + "-caller", "n": n, "request": in.js(), "request_variant": rs.name,
 					"observed": map[string]interface{}{"caller_request_after_call": obs.caller.js()}},
 				"", "caller|"+canon, true)
